@@ -72,7 +72,7 @@ CMDS = [
     ('IDLE', 'select', b'{W}', 'ok'),
     ('FETCH', 'invalid', b'{W}', None), ('BOGUS', 'invalid', b'{W} x', None), ('SELECT', 'invalid', b'{W}', None),
 ]
-STATES = ['NA', 'AU', 'RW', 'RO']
+STATES = ['NA', 'AU', 'RW', 'RO', 'RWE', 'ROE']   # ..E: the selected mailbox is empty (same abstract state)
 PLAIN_GOOD = b'AHRlc3R1c2VyAHRlc3RwYXNz\r\n'   # \0testuser\0testpass
 
 
@@ -173,6 +173,7 @@ def scenario(g, conn_mod, sim, pre, cmds, word_items, base):
     mset = g['MailboxSet']()
     fset = g['FilterSet']()
     sim.run_coro(mset.add_mailbox('Other'))
+    sim.run_coro(mset.add_mailbox('Empty'))
     if base is not None:
         mset._inbox._max_uid = base
     for _ in range(2):
@@ -180,12 +181,18 @@ def scenario(g, conn_mod, sim, pre, cmds, word_items, base):
     sim.run_coro(sim.run_coro(mset.get_mailbox('Other')).append(g['AppendMessage'](b'y', None, frozenset())))
     cfg.set_cache['testuser'] = (mset, fset)
     feed = []
-    if pre in ('AU', 'RW', 'RO'):
+    if pre != 'NA':
         feed.append(b'l LOGIN testuser testpass\r\n')
+    if pre in ('AU', 'RW', 'RO', 'RWE', 'ROE') and False:
+        pass
     if pre == 'RW':
         feed.append(b's SELECT INBOX\r\n')
     if pre == 'RO':
         feed.append(b's EXAMINE INBOX\r\n')
+    if pre == 'RWE':
+        feed.append(b's SELECT Empty\r\n')
+    if pre == 'ROE':
+        feed.append(b's EXAMINE Empty\r\n')
     snaps = {}
     holder = {}
 
@@ -236,9 +243,9 @@ def scenario(g, conn_mod, sim, pre, cmds, word_items, base):
     lines, conds = conn_mod.tagged(list(out))
     if b'[SERVERBUG]' in out:
         return 'internal-error BYE'
-    state_now = pre
-    sel_now = 'INBOX' if pre in ('RW', 'RO') else None
-    names = {'INBOX', 'Other'}
+    state_now = pre[:2]
+    sel_now = 'INBOX' if pre in ('RW', 'RO') else 'Empty' if pre in ('RWE', 'ROE') else None
+    names = {'INBOX', 'Other', 'Empty'}
     for k, ci in enumerate(cmds):
         name, kind, tmpl, arg = CMDS[ci]
         if state_now == 'END':
@@ -295,7 +302,7 @@ def _harness(nseq):
     def fn(eng):
         from pysymex import SymInt, SymUid, Outcome
         import z3
-        pre = STATES[eng.choose('pre', 4)]
+        pre = STATES[eng.choose('pre', len(STATES))]
         cmds = [eng.choose('cmd%d' % k, len(CMDS)) for k in range(nseq)]
         base = eng.fresh_int('base', 1000, 8000, cls=SymUid)
         bits = {}
